@@ -2,6 +2,7 @@
 
 import asyncio
 from collections.abc import Callable, Coroutine
+import contextlib
 from dataclasses import dataclass, field
 import json
 import logging
@@ -85,7 +86,10 @@ class Persistence:
         async def cancel_save() -> None:
             """Cancel the save task."""
             task.cancel()
-            await task
+            # The task raises CancelledError if it is cancelled before it has
+            # started or while it is saving. We requested that cancellation.
+            with contextlib.suppress(asyncio.CancelledError):
+                await task
 
         self._cancel_save = cancel_save
 
